@@ -60,6 +60,10 @@ var ufAxioms = map[string]func(app *Term) []*Term{
 }
 
 func init() {
+	ufAxioms["fmtverbs"] = func(a *Term) []*Term {
+		f := a.Args[0]
+		return []*Term{Eq(Eq(a, f), Not(Contains(f, StrC("%"))))}
+	}
 	for name := range lenAbstract {
 		name := name
 		ufAxioms["len."+name] = func(a *Term) []*Term {
@@ -727,6 +731,37 @@ func (p *Portfolio) Check(base []*Term, extra []*Term, wantModel bool) (Result, 
 		reason += s.Name + ": " + why + "; "
 	}
 	return Unknown, nil, reason
+}
+
+// Confirm asks the solvers other than the one that answered first whether base ∧
+// extra is satisfiable after all (thorough tier: every unsat verdict of an
+// assertion is put to the second back end; a disagreement is reported as
+// inconclusive, never as a verdict).
+func (p *Portfolio) Confirm(base []*Term, extra []*Term) (Result, string) {
+	var live []*Term
+	for _, a := range extra {
+		if a.IsFalse() {
+			return Unsat, ""
+		}
+		if !a.IsTrue() {
+			live = append(live, a)
+		}
+	}
+	for _, a := range base {
+		if a.IsFalse() {
+			return Unsat, ""
+		}
+	}
+	if len(p.Solvers) < 2 {
+		return Unsat, ""
+	}
+	// the last solver of the portfolio is the one least likely to have answered
+	s := p.Solvers[len(p.Solvers)-1]
+	r, _, _ := s.CheckLimit(base, live, false, p.Hard, 10000)
+	if r == Sat {
+		return Sat, s.Name
+	}
+	return r, s.Name
 }
 
 // CheckAll asks every solver and reports disagreement (thorough tier).
